@@ -163,7 +163,7 @@ def replay_figures(index, ob, seed, saved=None):
         hx = fs._binary_to_hex(data)
         if hx.replace("\n", "") != data.hex() or any(len(l) > 80 for l in hx.split("\n")):
             return _r(True, input={"data_hex": data.hex()}, observed=hx, function="_binary_to_hex")
-    for dims, idx in [([1.0, 2.0, 3.0], 1), ([1.0, 2.0], 5), ([4.0], 0), (2.5, 3)]:
+    for dims, idx in [([1.0, 2.0, 3.0], 1), ([1.0, 2.0], 5), ([1.0, 2.0], 2), ([3.0, 4.5, 7.0], 6), ([4.0], 0), (2.5, 3)]:
         got = fs._get_dimension(dims, idx)
         want = dims if not isinstance(dims, list) else dims[min(idx, len(dims) - 1)]
         if got != want:
@@ -198,6 +198,10 @@ def replay_validators(index, ob, seed, saved=None):
         ("RTFBody", dict(text_color=["red", "notacolour"])), ("RTFBody", dict(text_justification=[["l", "x"]])),
         ("RTFBody", dict(cell_vertical_justification="middle")), ("RTFBody", dict(border_color_top=[["red", "nope"]])),
         ("RTFBody", dict(text_format="bq")), ("RTFBody", dict(pageby_row="row")), ("RTFBody", dict(new_page=True)),
+        ("RTFBody", dict(border_top=[["single", "single"], ["single", "zigzag"]])), ("RTFBody", dict(border_last=[[""], [""], ["bogus"]])),
+        ("RTFBody", dict(text_font=[[1, 2], [3, 12]])), ("RTFBody", dict(text_justification=[["l"], ["q"]])), ("RTFBody", dict(cell_height=[[0.2], [0.0]])),
+        ("RTFBody", dict(border_color_left=[["red"], ["nocolour"]])), ("RTFBody", dict(text_color=[["red", "blue"], ["blue", "nocolour"]])),
+        ("RTFColumnHeader", dict(text=["a"], border_bottom=[["single"], ["bogus"]])),
         ("RTFPage", dict(width=-1)), ("RTFPage", dict(border_first="bogus")), ("RTFPage", dict(nrow=0)),
         ("RTFPage", dict(orientation="diagonal")), ("RTFPage", dict(page_title="middle")), ("RTFPage", dict(margin=[1, 1, 1])),
         ("RTFPage", dict(col_width=0)), ("RTFTitle", dict(text="t", text_font=99)), ("RTFFootnote", dict(text="t", border_top="zig")),
